@@ -349,7 +349,7 @@ def run(ctx):
                 "restricted+RHF vs unrestricted+UHF over sampler entry points x block structures x seeds and driver.afqmc option cells; "
                 "state = (routine, permutation / batch count / substitution / cell)")
     ctx.assume("equivariance compared at 1e-12 relative (arithmetic may fuse differently for different batch shapes); container comparison at 1e-9 (sampler) / 2e-6 (driver stores float32)")
-    ctx.pmap(job, configs(ctx.tier, ctx.seed))
+    ctx.pmap(job, configs(ctx.tier, ctx.seed), tasks_per_child=2)
     ctx.require_guard("permutations", "batch_counts", "substitutions", "cpmc_permutations", "container_pairs", "driver_container_pairs")
 
 
